@@ -343,8 +343,13 @@ func TestVerifC19S(t *testing.T) {
 
 		// reader || merger: the key is only in the temp that moves (network policy state: only in G; B: only in block 1),
 		// or its newest value is (A: older value in the permanent database)
-		add("two-temps", "GS", 0, "statePolicy", 1, clean, false)
-		add("perm+two-temps", "GSP", 1, "stateA", 1, clean, false)
+		if clean == 3 || r.Thorough() {
+			add("two-temps", "GS", 0, "statePolicy", 1, clean, false)
+		}
+
+		if clean == 0 || r.Thorough() {
+			add("perm+two-temps", "GSP", 1, "stateA", 1, clean, false)
+		}
 
 		if !r.Thorough() {
 			continue
